@@ -315,6 +315,10 @@ func genPrograms() [][]string {
 	out = append(out, []string{"%p1%PA", "%gA%d", "%p2%PA%gA%d", "%gA%gA%*%d"})
 	out = append(out, []string{"%p1%PZ%p2%Pz", "%gZ%d,%gz%d"})
 	out = append(out, []string{"%?%p1%t%p2%PB%;", "%gB%d"})
+	// the same program with the same parameters evaluated again after the variable changed
+	// (TParm is not a pure function of its arguments: static variables persist across calls)
+	out = append(out, []string{"%p1%PC", "<%gC%d>", "%p2%PC", "<%gC%d>", "%p1%p2%+%PC", "<%gC%d>"})
+	out = append(out, []string{"%p1%PD", "%gD%{1}%+%PD", "%gD%{1}%+%PD", "%gD%d"})
 	// conditionals: all structures over small condition and body sets up to a nesting depth
 	conds := []string{"%p1", "%p2", "%p1%p2%=", "%p1%{1}%>", "%p1%p2%A", "%p1%!", "%p1%p2%O"}
 	depth := 2
